@@ -484,3 +484,8 @@ func (sb *Sandbox) Run(st Step) Result {
 	}
 	return res
 }
+
+func isDir(p string) bool {
+	fi, err := os.Stat(p)
+	return err == nil && fi.IsDir()
+}
